@@ -147,7 +147,7 @@ def check_resize(case):
 @st.composite
 def st_flip(draw):
     sh = draw(A.shapes(1, 4, 1, 5, 200))
-    axes = draw(A.axes_subset(len(sh)))
+    axes = draw(A.axes_subset(len(sh), allow_empty=True))
     return {"f": "flip", "x": {"k": "lab", "shape": sh, "dtype": draw(st.sampled_from(DT)), "layout": draw(LAY)}, "axes": axes}
 
 
@@ -187,7 +187,7 @@ def check_flip(case):
 @st.composite
 def st_circshift(draw):
     sh = draw(A.shapes(1, 4, 1, 5, 200))
-    axes = draw(A.axes_subset(len(sh)))
+    axes = draw(A.axes_subset(len(sh), allow_empty=True))
     k = len(sh) if axes is None else len(axes)
     shifts = [draw(st.integers(-12, 12)) for _ in range(k)]
     return {"f": "circshift", "x": {"k": "lab", "shape": sh, "dtype": draw(st.sampled_from(DT)), "layout": draw(LAY)},
